@@ -839,6 +839,7 @@ func (c *Client) peekPacket() (head byte, err error) {
 	}
 
 	// slice payload form read buffer
+	c.peek = nil // from previous packet, if any
 	for {
 		if c.bufr.Buffered() < size && c.PauseTimeout != 0 {
 			err := c.readConn.SetReadDeadline(time.Now().Add(c.PauseTimeout))
